@@ -224,7 +224,7 @@ func queueTarget(w *W) *blkTarget {
 	default:
 		h := 1 + simrt.Choose(3)
 		var err error
-		q, err = pubsub.NewQueue[int](pubsub.QueueOptions{HardLimit: h, SoftQuota: h})
+		q, err = pubsub.NewQueue[int](pubsub.QueueOptions{HardLimit: h, SoftQuota: 1 + simrt.Choose(h), BurstCredit: float64(simrt.Choose(3))})
 		if err != nil {
 			panic(err)
 		}
@@ -264,7 +264,10 @@ func dequeTarget(w *W) *blkTarget {
 	tg.consNames = []string{"WaitFront", "WaitBack", "Distributor.Receive"}
 	tg.producers = []func(ctx context.Context, v int) error{dq.WaitPushFront, dq.WaitPushBack, d.Send}
 	tg.prodNames = []string{"WaitPushFront", "WaitPushBack", "Distributor.Send"}
-	tg.push = []func(v int) error{dq.PushFront, dq.PushBack, dq.ForcePushFront, dq.ForcePushBack}
+	dn := dq.DistributorNonBlocking()
+	tg.consumers = append(tg.consumers, dn.Receive)
+	tg.consNames = append(tg.consNames, "DistributorNonBlocking.Receive")
+	tg.push = []func(v int) error{dq.PushFront, dq.PushBack, dq.ForcePushFront, dq.ForcePushBack, func(v int) error { return dn.Send(context.Background(), v) }}
 	tg.pop = []func() (int, bool){dq.PopFront, dq.PopBack}
 	return tg
 }
